@@ -265,6 +265,113 @@ impl ClientRoutesUpdate {
     }
 }
 
+/// Hook H-MERGE (update part): lets the external model checker drive the production
+/// `MetadataUpdate::merge_*` closures through the production `merge_channel` exactly the way
+/// `MetadataWorker::send_update` does, and take a received value apart. No logic of its own.
+#[cfg(scylla_verif)]
+pub(crate) mod verif_seam {
+    use std::net::SocketAddr;
+
+    use tokio::sync::oneshot;
+
+    use super::{
+        ClientRoutesUpdate, MetadataChanges, MetadataUpdate, PartialMetadataChanges, StatusHint,
+    };
+    use crate::cluster::metadata::merge_channel::{self, SendError, merge_channel};
+    use crate::cluster::metadata::{Metadata, Peer};
+    use crate::errors::MetadataError;
+
+    pub(crate) type Responder = oneshot::Sender<Result<(), MetadataError>>;
+
+    /// The producer endpoint, as held by `MetadataWorker::updates`.
+    pub(crate) struct Tx(merge_channel::Sender<MetadataUpdate>);
+    /// The consumer endpoint, as held by `ClusterWorker::metadata_updates`.
+    pub(crate) struct Rx(merge_channel::Receiver<MetadataUpdate>);
+
+    pub(crate) fn channel() -> (Tx, Rx) {
+        let (tx, rx) = merge_channel();
+        (Tx(tx), Rx(rx))
+    }
+
+    impl Tx {
+        pub(crate) fn merge_metadata(
+            &mut self,
+            metadata: Metadata,
+            refresh_response: Option<Responder>,
+        ) -> Result<(), SendError> {
+            self.0
+                .modify(|slot| MetadataUpdate::merge_metadata(slot, metadata, refresh_response))
+        }
+        pub(crate) fn merge_client_routes_update(
+            &mut self,
+            routes: ClientRoutesUpdate,
+        ) -> Result<(), SendError> {
+            self.0
+                .modify(|slot| MetadataUpdate::merge_client_routes_update(slot, routes))
+        }
+        pub(crate) fn merge_topology_update(&mut self, peers: Vec<Peer>) -> Result<(), SendError> {
+            self.0
+                .modify(|slot| MetadataUpdate::merge_topology_update(slot, peers))
+        }
+        pub(crate) fn merge_up_hint(&mut self, addr: SocketAddr) -> Result<(), SendError> {
+            self.0.modify(|slot| MetadataUpdate::merge_up_hint(slot, addr))
+        }
+        pub(crate) fn merge_down_hint(&mut self, addr: SocketAddr) -> Result<(), SendError> {
+            self.0
+                .modify(|slot| MetadataUpdate::merge_down_hint(slot, addr))
+        }
+    }
+
+    /// A received `MetadataUpdate`, field by field.
+    pub(crate) struct View {
+        pub(crate) changes: Option<ChangesView>,
+        /// (address, is an UP hint)
+        pub(crate) hints: Vec<(SocketAddr, bool)>,
+    }
+    pub(crate) enum ChangesView {
+        Full {
+            metadata: Metadata,
+            refresh_responses: Vec<Responder>,
+        },
+        Partial {
+            client_routes_updates: Option<ClientRoutesUpdate>,
+            peers: Option<Vec<Peer>>,
+        },
+    }
+
+    fn view(update: MetadataUpdate) -> View {
+        let hints = update
+            .status_hints
+            .into_iter()
+            .map(|(addr, hint)| (addr, hint == StatusHint::Up))
+            .collect();
+        let changes = update.metadata_changes.map(|c| match c {
+            MetadataChanges::Full {
+                metadata,
+                refresh_responses,
+            } => ChangesView::Full {
+                metadata,
+                refresh_responses,
+            },
+            MetadataChanges::Partial(PartialMetadataChanges {
+                client_routes_updates,
+                peers,
+            }) => ChangesView::Partial {
+                client_routes_updates,
+                peers,
+            },
+        });
+        View { changes, hints }
+    }
+
+    impl Rx {
+        /// `Receiver::recv`, as awaited by the cluster worker's main loop.
+        pub(crate) async fn recv(&mut self) -> Option<View> {
+            self.0.recv().await.map(view)
+        }
+    }
+}
+
 #[cfg(test)]
 mod tests {
 
